@@ -1,6 +1,6 @@
 CONSTANTS
   NDocs = 120
-  NOperators = 43
+  NOperators = 44
   MaxSite = 14
 INIT Init
 NEXT Next
